@@ -163,6 +163,42 @@ func c37(c *engine.Ctx) {
 	_ = m
 	// R3
 	c35Trim(c, "C37.R3")
+	// R4: the html parser writes the tokenizer's text tokens as byte chunks,
+	// and a tag may stand between the bytes of one rune ("\xf0\x9f<b>\x8f\x9f</b>").
+	// The UTF-16 length of a concatenation is not the sum of the lengths of
+	// such chunks (two halves count as 2+2 replacement units, the whole rune as
+	// 2), so a byte-chunk writer that is fed by a byte tokenizer must compute
+	// its increment from more than the chunk alone (the tail of the text
+	// written so far, or carried partial-rune state).
+	if bw := c.MustFunc("C37.R4", entPkg, "Builder.Write"); bw != nil {
+		fed := false
+		for _, g := range parserFns {
+			for _, call := range engine.CallsTo(g, false, "(*telegram/message/entity.Builder).Write") {
+				engine.WalkBack(engine.Args(call.Common())[1], func(v ssa.Value) bool {
+					if tk, ok := v.(*ssa.Call); ok && strings.Contains(engine.CalleeID(tk.Common()), "html.Tokenizer") {
+						fed = true
+					}
+					return !fed
+				})
+			}
+		}
+		stateful := false
+		for _, st := range fieldStoresSuffix(bw, ".utf16length") {
+			engine.WalkBack(st.Val, func(v ssa.Value) bool {
+				if ld, ok := v.(*ssa.UnOp); ok && ld.Op == token.MUL {
+					d := engine.Describe(ld)
+					if strings.HasPrefix(d, "p:b.") && d != "p:b.utf16length" {
+						stateful = true
+					}
+				}
+				if call, ok := v.(*ssa.Call); ok && strings.HasPrefix(engine.CalleeID(call.Common()), "(*strings.Builder).") && engine.CalleeID(call.Common()) != "(*strings.Builder).Write" {
+					stateful = true
+				}
+				return true
+			})
+		}
+		c.Check(!fed || stateful, "C37.R4", "Builder.Write/chunk-accounting-ignores-rune-boundaries", bw.Pos(), "html.parse feeds Builder.Write with tokenizer byte chunks, and Write adds ComputeLengthBytes of each chunk on its own: a rune split by a tag is counted as replacement units on both sides, so later entities start beyond the text (input \"\\xf0\\x9f<b>\\x8f\\x9f</b>\": text of 2 units, bold [2,+2))")
+	}
 }
 
 // c37TokenOf: tok is (a load of) a value produced by builder.Token() for the
